@@ -5,6 +5,8 @@ import Pycdlib.Model.Names
 import Pycdlib.Model.Mangle
 import Pycdlib.Model.Dates
 import Pycdlib.Model.Stream
+import Pycdlib.Model.Reader
+import Pycdlib.Model.ReaderUdf
 namespace Pycdlib
 
 def parseCps (s : String) : Option (List Nat) :=
@@ -64,6 +66,12 @@ def dispatchIO (toks : List String) : IO (Option String) := do
       let outs := runW { img := img.toList, pos := 0, streams := ss } os
       pure (some (" ".intercalate (outs.map SOut.show)))
     | _, _ => pure none
+  | ["read", path] =>
+    let img ← IO.FS.readBinFile path
+    let (_, rep) := (do Reader.readIso { d := img }; Reader.readUdf { d := img } : Reader.RM Unit).run {}
+    let allocs := rep.allocs.toList.map fun (l, a, b) => s!"{l}@{a}+{b}"
+    pure (some ("errs=" ++ "|".intercalate rep.errs.toList ++ " ;; info=" ++ "|".intercalate rep.info.toList ++
+      " ;; allocs=" ++ "|".intercalate allocs ++ " ;; entries=" ++ "|".intercalate rep.entries.toList))
   | ["copy", left, bs, hx] =>
     match left.toNat?, bs.toNat?, ofHex hx with
     | some l, some b, some src => pure (some (hexs (copyData (l + 1) l b src)))
